@@ -730,11 +730,14 @@ func Instrument(repoDir, outDir string, specs []PackageSpec, env []string) (*Res
 			}
 			sort.Strings(names)
 			var b strings.Builder
-			fmt.Fprintf(&b, "package %s\n\n// Generated by the gcsim instrumenter; added through the build overlay only.\n\nimport %s\n\nfunc init() {\n\tgcsimrt.AnalyzerReset = func() {\n", p.Name, rtImport)
+			// The file name sorts last, so its init function runs after every other init
+			// function of the package: the snapshot is the state the package has when main
+			// starts (zero for plain run state, whatever init assigned otherwise).
+			fmt.Fprintf(&b, "package %s\n\n// Generated by the gcsim instrumenter; added through the build overlay only.\n\nimport %s\n\nfunc init() {\n\tvar restore []func()\n", p.Name, rtImport)
 			for _, n := range names {
-				fmt.Fprintf(&b, "\t\tgcsimrt.Zero(&%s)\n", n)
+				fmt.Fprintf(&b, "\trestore = append(restore, gcsimrt.Snap(&%s))\n", n)
 			}
-			b.WriteString("\t}\n}\n")
+			b.WriteString("\tgcsimrt.AnalyzerReset = func() {\n\t\tfor _, r := range restore {\n\t\t\tr()\n\t\t}\n\t}\n}\n")
 			res.Added[filepath.Join(filepath.Dir(p.CompiledGoFiles[0]), "zz_gcsim_reset.go")] = b.String()
 			res.ResetVars = names
 		}
